@@ -33,6 +33,9 @@ func checkC33(c *Ctx, r *Report) {
 	r.rule("C33.R3", "LoadOffset implementations return -1 when nothing is stored; filterRecords compares strictly", 7)
 	r.rule("C33.R4", "listers return footer-check errors", 2)
 	r.rule("C33.R5", "the filter threshold is the checkpoint loaded for this segment's topic/partition in this iteration", 1)
+	r.rule("C33.R6", "in strict schema mode a validator error ends the cycle: the only way from a Validate error back into the record loop (the record is dropped, the segment is written and checkpointed without it) is the branch on which Mode() != ModeStrict", 1)
+	r.Explanation += " (R6) in the Iceberg processor a schema-validator error leads back into the record loop (the record is dropped) only over the edge on which Mode() != ModeStrict."
+	checkStrictValidation(c, r, "C33.R6")
 
 	type proc struct {
 		mod, path, label string
@@ -440,4 +443,51 @@ func blockInLoop(header, b *ssa.BasicBlock) bool {
 		}
 	}
 	return false
+}
+
+// checkStrictValidation (C33.R6, added after a seeded change let strict mode drop a record whose
+// validation timed out): dropping a record is the lenient mode's documented behaviour only.
+func checkStrictValidation(c *Ctx, r *Report, rule string) {
+	m, err := c.Mod("iceberg")
+	if err != nil {
+		r.unresolved(rule, "iceberg module", err.Error())
+		return
+	}
+	notStrict := atomFn("Mode() != ModeStrict", func(l Lit) bool {
+		if l.Op != token.NEQ {
+			return false
+		}
+		isMode := func(v ssa.Value) bool { return dependsOnCall(v, "~schema.Validator).Mode") }
+		isStrict := func(v ssa.Value) bool { s, ok := constString(v); return ok && s == "strict" }
+		return (isMode(l.X) && isStrict(l.Y)) || (isMode(l.Y) && isStrict(l.X))
+	})
+	n := 0
+	for _, fn := range m.FuncsInPkg(icebergMod + "/internal/processor") {
+		for _, call := range findCalls(fn, "~schema.Validator).Validate") {
+			header := innermostRangeHeader(call)
+			if header == nil {
+				continue
+			}
+			n++
+			r.fn(fn)
+			key := "a Validate error in " + shortName(fn) + " drops the record only when the mode is not strict"
+			_, errB := errEdges(call)
+			if errB == nil {
+				r.viol(rule, key, m.Pos(call.Pos()), "the error of Validate is not checked")
+				continue
+			}
+			lenient := passEdges(fn, []Atom{notStrict})
+			found, _, path := search(SearchSpec{Start: Loc{errB, 0},
+				Removed: func(b *ssa.BasicBlock, si int) bool { _, ok := lenient[edge{b, si}]; return ok },
+				Target:  func(in ssa.Instruction) bool { return in.Block() == header }})
+			if found {
+				r.viol(rule, key, m.Pos(call.Pos()), "after a validator error the record loop continues without the mode having been found non-strict — the record is left out of what is written, and the checkpoint moves past it: "+renderPath(m, path))
+			} else {
+				r.ok(rule, key, m.Pos(call.Pos()), "")
+			}
+		}
+	}
+	if n == 0 {
+		r.unresolved(rule, "Validate call inside a record loop", "not found in the iceberg processor package")
+	}
 }
